@@ -29,7 +29,7 @@ func init() {
 		Technique:      "runtime monitor: required-set rule and help-bypass rule over instrumented CommandFns, errors.Is and Writer content of real Parse+Dispatch executions; help text compared with Help() of an identically built program parked on the level",
 		Rule: "case = tree with required options (own/inherited, custom message or not, env-bound) x target command x EVERY subset of the (<=4) required options visible there supplied by name/alias/abbreviation/env x help {not requested (x3), help option (any alias-free abbreviation, any level of the path), help command, help <topic>, help <unknown topic>}; " +
 			"distinct = (tree shape, target, subset, help form); non-trivial = at least one required option is visible at the target" + genDims,
-		Cases: func(tier string) int { return tierN(tier, 16*6*200, 16*6*25000) },
+		Cases: func(tier string) int { return tierN(tier, 16*6*600, 16*6*25000) },
 		Run: func(seed uint64, idx int, tier string) *fw.Result {
 			subset := idx % 16
 			helpMode := (idx / 16) % 6
